@@ -203,6 +203,14 @@ class CommonRD:
 
             if "base" in registration_parameters:
                 set_base = pop_single_arg(registration_parameters, "base")
+                if set_base is not None:
+                    try:
+                        # All targets of the registration's links will be
+                        # resolved against this later in lookups, over and
+                        # over: refuse right away what can not serve for that
+                        urljoin(set_base, "/")
+                    except ValueError:
+                        raise error.BadRequest("base is not a usable URI")
 
             if set_lt is not None and self.lt != set_lt:
                 actual_change = True
